@@ -639,7 +639,9 @@ def gen_case(rng, kind, n, M, coarse=False, bad=None, reorder=False, d=None):
     steps = 20 if n <= 3 else 14
     dt = 10.0
     ngood = n - (sum(bad) if bad else 0)
-    if coarse and ngood == 2:
+    # (a coarse 6 x 40 ns grid was measured to be SLOWER per trajectory than 20 x 10 ns: long steps need many more
+    #  Krylov vectors and root-finding sweeps; the `coarse` flag is kept for old replays only)
+    if coarse and ngood == 2 and False:
         steps, dt = 6, 40.0
     elif ngood <= 3:
         steps = 20
@@ -948,15 +950,15 @@ def falsifier_stage(ctx):
     for i in range(ctx.n(2, 10)):      # reordering without bad atoms
         det.append(gen_det_case(ctx.rng, kinds2[i % 5], [3, 4][i % 2], jump=True, reorder=True))
     if ctx.thorough():
-        plan = [("relaxation", 2, 1200), ("dephasing", 2, 1200), ("depolarizing", 2, 1200), ("effective", 2, 1200),
-                ("leakage", 2, 1200), ("mixed", 2, 400), ("mixed", 3, 300), ("leakage", 3, 300), ("relaxation", 4, 300)]
+        plan = [("relaxation", 2, 1000), ("dephasing", 2, 1000), ("depolarizing", 2, 1000), ("effective", 2, 1000),
+                ("leakage", 2, 1000), ("mixed", 2, 400), ("mixed", 3, 300), ("leakage", 3, 300), ("relaxation", 4, 300)]
     else:
         plan = [("mixed", 2, 300), ("leakage", 2, 300), ("effective", 3, 40)]
     for kind, n, M in plan:
         stat.append(gen_case(ctx.rng, kind, n, M, coarse=(M >= 600 or not ctx.thorough())))
     # statistical cases with one badly prepared atom among three (two well-prepared: cheap, exact TDVP step)
     for i in range(ctx.n(1, 2)):
-        stat.append(gen_case(ctx.rng, ["mixed", "relaxation", "effective"][i], 3, ctx.n(250, 1000), coarse=True,
+        stat.append(gen_case(ctx.rng, ["mixed", "relaxation", "effective"][i], 3, ctx.n(250, 600), coarse=True,
                              bad=gen_bad_mask(ctx.rng, 3), reorder=(i == 1)))
     worst_det, njump_hist = {}, {}
     for c in det:
@@ -1021,8 +1023,7 @@ def run(ctx):
                 "against the dense Lindblad solution. (d) statistical: trajectory averages (python random seeded from ctx.rng) of "
                 "occupations at t = T/2 and T against the dense Lindblad reference; acceptance by the smaller of "
                 "Bernstein's bound with variance p(1-p) and the empirical Bernstein bound (Maurer-Pontil), Bonferroni "
-                "over all (case, time, atom) tests; n = 2 cases of the quick tier and those with >= 600 trajectories use 6 steps of 40 ns (one "
-                "exact two-site exponential per step).")
+                "over all (case, time, atom) tests; for n = 2 a TDVP step is one exact two-site exponential (no splitting error).")
     ctx.trusted_base += ["hand-written Model/McwfOps.v (validated by the two correspondences on every run)",
                          "python's random.choices / random.uniform are faithful samplers (the choice itself is not "
                          "modelled; its arguments are)",
